@@ -1213,11 +1213,16 @@ def extra(ctx, cases, lines, impl_out, model_out):
     configure(ctx)
     if 'facts' not in _STATE:
         regenerate(build=False)
-    if _STATE.get('src_bad'):
-        # the dump machinery is broken (not a property violation): the engine reports MACHINERY-ERROR
-        raise RuntimeError('c16 dump disagrees with the literals in the source text: ' + ' | '.join(_STATE['src_bad'][:5]))
-    # the engine expects (record, why) pairs
-    return [(m, m['why']) for m in evaluate(_STATE['facts'])]
+    out = [(m, m['why']) for m in evaluate(_STATE['facts'])]
+    for b in _STATE.get('src_bad') or []:
+        # a constant read through the public traits of the compiled crate differs from the literal written in the source
+        # text: the declared constant does not denote what is written (e.g. a broken read-back path such as into_bigint for
+        # one limb count, or a const-evaluation defect) -- a violation with the constant as the failing input
+        rec = {'case': {'op': 'source_literal', 'args': [], 'class': 'source_literal_vs_compiled_constant'},
+               'line': b[:400], 'impl': 'compiled crate (public trait)', 'model': 'literal in the source text',
+               'why': 'declared constant differs from the literal in the source text: ' + b[:600]}
+        out.append((rec, rec['why']))
+    return out
 
 
 PRE_FATAL = True
